@@ -1069,7 +1069,8 @@ def run(ctx):
                         "statuses": res.get("statuses"), "exit_tick": res.get("exit_tick")})
         for v in verd:
             nver += 1
-            ctx.violation("oracle:e2e:" + v.split(":")[0] + ":" + re.sub(r"\d+", "N", v)[:60], v,
+            fam = name.split(":")[0]
+            ctx.violation("oracle:e2e:" + fam + ":" + re.sub(r"\d+", "N", v.split(": ", 1)[-1])[:60], v,
                           {"property": ctx.pid, "kind": "property-oracle", "correspondence": "e2e-real-time",
                            "input": line, "scenario": name, "impl_obs": {kk: res.get(kk) for kk in ("fin_tick", "statuses", "exit_tick", "nbytes", "flags")},
                            "model_obs": mo[k] if mo else None, "oracle_verdict": v, "server_log": res.get("log")},
